@@ -73,41 +73,60 @@ func feeID(f *bt.Fee) (int64, bool) {
 }
 
 // waitOrDeadlock waits for the workers of a history. Goroutines cannot be
-// killed, so when they do not finish within a generous bound the goroutine
-// dump is examined: if every remaining worker has been blocked in a sync
-// primitive for minutes, that is a deadlock (operations that never return) and
-// is reported with the dump; anything else is inconclusive. Either way the
-// child ends (the violation is already on disk for the parent).
+// killed, so when they do not finish within a generous bound two goroutine
+// dumps are taken 60 s apart: if the same worker goroutines sit in the same
+// sync-primitive wait with identical stacks in both (no worker runnable, none
+// gone, none new), no operation can have made progress for a minute although
+// every history is milliseconds of work - a deadlock (operations that never
+// return), reported with the dump. Anything else is inconclusive. Either way
+// the child ends (the violation is already on disk for the parent).
 func waitOrDeadlock(c *mon.Ctx, wg *sync.WaitGroup, what string) {
 	done := make(chan struct{})
 	go func() { wg.Wait(); close(done) }()
 	select {
 	case <-done:
 		return
-	case <-time.After(100 * time.Second):
+	case <-time.After(40 * time.Second):
 	}
-	buf := make([]byte, 1<<20)
-	buf = buf[:runtime.Stack(buf, true)]
-	dump := string(buf)
-	blocked, other := 0, 0
-	for _, g := range strings.Split(dump, "\n\n") {
-		if !strings.Contains(g, "main.c18") || strings.Contains(g, "waitOrDeadlock") {
-			continue
+	// workers: goroutine id -> wait state + stack, without the wait duration
+	snapshot := func() (map[string]string, bool, string) {
+		buf := make([]byte, 4<<20)
+		dump := string(buf[:runtime.Stack(buf, true)])
+		m, allBlocked := map[string]string{}, true
+		for _, g := range strings.Split(dump, "\n\n") {
+			if !strings.Contains(g, "main.c18") || strings.Contains(g, "waitOrDeadlock") {
+				continue
+			}
+			head, body, _ := strings.Cut(g, "\n")
+			id, state, _ := strings.Cut(strings.TrimPrefix(head, "goroutine "), " ")
+			state, _, _ = strings.Cut(strings.Trim(state, "[]:"), ",")
+			if !strings.HasPrefix(state, "sync.") && state != "semacquire" {
+				allBlocked = false
+			}
+			m[id] = state + "\n" + body
 		}
-		head, _, _ := strings.Cut(g, "\n")
-		if strings.Contains(head, "minutes]") && (strings.Contains(head, "sync.") || strings.Contains(head, "semacquire")) {
-			blocked++
-		} else if !strings.Contains(head, "chan receive") && !strings.Contains(head, "semacquire") {
-			other++
+		return m, allBlocked, dump
+	}
+	s1, b1, _ := snapshot()
+	select {
+	case <-done:
+		return
+	case <-time.After(60 * time.Second):
+	}
+	s2, b2, dump := snapshot()
+	same := len(s1) == len(s2) && len(s1) > 0
+	for id, g := range s1 {
+		if s2[id] != g {
+			same = false
 		}
 	}
-	if blocked > 0 && other == 0 {
+	if same && b1 && b2 {
 		if len(dump) > 6000 {
 			dump = dump[:6000]
 		}
-		c.Violationf("C18:operations-never-return:"+what, "%d worker goroutines of a %s history have been blocked in a lock for over a minute and none is running: deadlock\n%s", blocked, what, dump)
+		c.Violationf("C18:operations-never-return:"+what, "%d worker goroutines of a %s history sit in the same lock wait, with identical stacks, in two goroutine dumps taken 60 s apart, and no worker is runnable: deadlock\n%s", len(s1), what, dump)
 	} else {
-		c.Fault("a " + what + " history did not finish within 100 s, but its goroutines are not all blocked (load?)")
+		c.Fault("a " + what + " history did not finish within 100 s, but its goroutines are not all blocked in locks (load?)")
 	}
 	c.Flush()
 	os.Exit(3)
